@@ -2,10 +2,12 @@ package checks
 
 import (
 	"fmt"
+	"os"
 	"strconv"
 	"strings"
 
 	"verif/internal/core"
+	"verif/internal/fcx"
 	"verif/internal/gobatch"
 	"verif/internal/scratch"
 )
@@ -275,6 +277,36 @@ func c11Generate(tier string, rng *core.Rand) []*c11Lit {
 	return out
 }
 
+// c11LoneProgram: a file whose ONLY string literal is the one under test (hole values and the
+// framing come from hand-written Go in the same package), at the same byte offset for every literal.
+func c11LoneProgram(pkg string, l *c11Lit) string {
+	return "package " + pkg + `
+
+import frt
+
+type Rc = {A: int; B: string; f_x: int}
+
+package_info _ =
+  let C11Frame: string->()
+  let C11Str: int->string
+
+let lit (hi:int) (hs:string) (hb:bool) (hneg:int) (hempty:string) (hl:[]int) (hr:Rc) (h_under:int) (_hlead:string) (h2d:int) (H_UP:string) (h__:string) (ht:int*string) =
+  ` + l.src + `
+
+let Run () =
+  C11Frame (lit 42 (C11Str 0) true (0 - 7) (C11Str 1) [1; 2; 3] {A=1; B=C11Str 2; f_x=9} 70 (C11Str 3) 22 (C11Str 4) (C11Str 5) (7, C11Str 6))
+`
+}
+
+const c11LoneHelper = `
+
+import "fmt"
+
+func C11Frame(s string) { fmt.Printf("LIT:%d:%s\n", len(s), s) }
+
+func C11Str(i int) string { return []string{"S t", "", "x", "lead", "up", "dd", "u"}[i] }
+`
+
 func c11Program(pkg string, lits []*c11Lit) string {
 	var b strings.Builder
 	b.WriteString("package " + pkg + "\n" + c11Prelude + "let Run () =\n")
@@ -322,7 +354,7 @@ func runC11(r *core.Run, tier string) {
 		r.Inconclusive("fc does not build: " + err.Error())
 		return
 	}
-	r.Rule("a case is one literal in one of the four forms (\"..\", `..`, $\"..\", $`..`): every printable ASCII character, newline, tab and 64 multi-byte code points (2-, 3- and 4-byte) alone and between two letters, every ASCII punctuation character doubled and tripled (minus the characters that are syntax of the form), the four escapes, \\{ \\}, percent signs, holes of type int / string / bool / negative int / empty string / slice / record / tuple / record field at start, middle, end and adjacent, every sequence of 1..4 holes over three names, and seeded random bodies; the program prints each literal framed as <id>:<byte length>:<bytes>; the printed bytes are compared with the value the four documented rules give; non-trivial = body non-empty; distinct by literal text")
+	r.Rule("a case is one literal in one of the four forms (\"..\", `..`, $\"..\", $`..`): every printable ASCII character, newline, tab and 64 multi-byte code points (2-, 3- and 4-byte) alone and between two letters, every ASCII punctuation character doubled and tripled (minus the characters that are syntax of the form), the four escapes, \\{ \\}, percent signs, holes of type int / string / bool / negative int / empty string / slice / record / tuple / record field at start, middle, end and adjacent, every sequence of 1..4 holes over three names, and seeded random bodies; the program prints each literal framed as <id>:<byte length>:<bytes>; the printed bytes are compared with the value the four documented rules give; a third pass sends chains of eight files made from one template, each holding the literal under test as its ONLY literal at the same byte offset (hole values and framing come from hand-written Go), through ONE fc invocation and checks every emitted program again; non-trivial = body non-empty; distinct by literal text")
 	r.Assume("only the escapes \\n \\t \\\\ \\\" (and \\{ \\} in $\"..\") are written; other backslash sequences are outside the statement", "holes of union type are not asserted (their display is fc's own Stringer text); float holes are not asserted")
 	lits := c11Generate(tier, core.NewRand(r.SeedV, "c11"))
 	// pass 1: 60 literals per program; pass 2: every literal of a failing program alone
@@ -428,6 +460,106 @@ func runC11(r *core.Run, tier string) {
 	}
 	if len(single) > 0 {
 		runUnits("c11b", single)
+	}
+	// pass 3: what a literal denotes must not depend on what the same fc process scanned before.
+	// Chains of 8 one-literal files made from ONE template (so the literal starts at the same byte
+	// offset in every file) go through one invocation; each emitted program prints its own literal.
+	{
+		nChains := 24
+		if tier == "thorough" {
+			nChains = 400
+		}
+		crng := core.NewRand(r.SeedV, "c11chain")
+		byForm := map[int][]*c11Lit{}
+		for _, l := range lits {
+			if l.status == "ok" {
+				byForm[l.form] = append(byForm[l.form], l)
+			}
+		}
+		type link struct {
+			name  string
+			lit   *c11Lit
+			gen   string
+			chain int
+		}
+		var links []*link
+		chainDiag := map[int]string{}
+		chainSrc := map[int]map[string]string{}
+		for ch := 0; ch < nChains; ch++ {
+			form := ch % 4
+			if len(byForm[form]) < 8 {
+				continue
+			}
+			files := map[string]string{}
+			var order []string
+			var mine []*link
+			for k := 0; k < 8; k++ {
+				l := byForm[form][crng.Intn(len(byForm[form]))]
+				name := fmt.Sprintf("p%d", 300000+ch*8+k)
+				files[name+"/x.fo"] = c11LoneProgram(name, l)
+				order = append(order, name+"/x.fo")
+				mine = append(mine, &link{name: name, lit: l, chain: ch})
+			}
+			d := env.Dir(fmt.Sprintf("c11chain/%d", ch))
+			out := fcx.Transpile(fc, env.PkgAll(), d, files, order, nil, 60)
+			os.RemoveAll(d)
+			chainSrc[ch] = files
+			if out.Res.WallOut {
+				r.Inconclusive("watchdog")
+				continue
+			}
+			chainDiag[ch] = out.Diag()
+			for _, lk := range mine {
+				lk.gen = out.Gen[lk.name+"/gen_x.go"]
+				links = append(links, lk)
+			}
+			if out.Res.Exit != 0 {
+				r.Violate(fmt.Sprintf("chain-rejected:%s:%d", c11FormName[form], ch), "eight one-literal files, each accepted alone, are rejected in one invocation: "+oneLineN(out.Diag(), 200), files)
+			}
+		}
+		var progs []gobatch.Prog
+		for _, lk := range links {
+			if lk.gen != "" {
+				progs = append(progs, gobatch.Prog{Name: lk.name, Files: map[string]string{"gen_x.go": lk.gen, "helper.go": "package " + lk.name + c11LoneHelper}})
+			}
+		}
+		per := 100
+		nb := (len(progs) + per - 1) / per
+		results := make([]*gobatch.Result, nb)
+		scratch.Parallel(nb, 6, func(b int) {
+			lo, hi := b*per, (b+1)*per
+			if hi > len(progs) {
+				hi = len(progs)
+			}
+			results[b] = gobatch.Run(env, fmt.Sprintf("c11c-b%d", b), progs[lo:hi], 300)
+		})
+		seen := map[string]bool{}
+		for _, br := range results {
+			if br.Inconcl != "" {
+				r.Inconclusive("execution batch: " + br.Inconcl)
+			}
+			for _, lk := range links {
+				if lk.gen == "" || seen[lk.name] {
+					continue
+				}
+				out, ran := br.Output[lk.name]
+				ce := br.CompileErr[lk.name]
+				if !ran && ce == "" && br.Died[lk.name] == "" && br.Panic[lk.name] == "" {
+					continue // in another batch
+				}
+				seen[lk.name] = true
+				r.Eval("chain:"+lk.name+":"+lk.lit.src, true)
+				r.Count("literals_checked_as_a_later_file_of_one_invocation", 1)
+				got, ok := c11ParseFrames(out)["LIT"]
+				if ce != "" || !ok || got != lk.lit.want {
+					files := map[string]string{"literal.txt": lk.lit.src + "\n", "expected_value.txt": lk.lit.want, "observed_value.txt": got, "detail.txt": ce + br.Died[lk.name] + br.Panic[lk.name] + "\n"}
+					for n, c := range chainSrc[lk.chain] {
+						files["invocation/"+n] = c
+					}
+					r.Violate("literal-value-in-chain:"+lk.lit.src, fmt.Sprintf("%s literal %s, correct when translated alone, evaluates to %s as file %s of an eight-file invocation (the rules give %s) %s", c11FormName[lk.lit.form], strconv.Quote(lk.lit.src), strconv.Quote(got), lk.name, strconv.Quote(lk.lit.want), oneLineN(ce, 120)), files)
+				}
+			}
+		}
 	}
 	classes := map[string]int64{}
 	forms := map[string]int64{}
